@@ -81,6 +81,7 @@ static scpi_result_t cb_reset(scpi_t * context) {
 vh_ctx_t * vh_ctx_new(const scpi_command_t * cmds, size_t inbuf_len, int queue_len, size_t heap_len) {
     vh_ctx_t * v = (vh_ctx_t *) calloc(1, sizeof *v);
     v->ctx = (scpi_t *) malloc(sizeof(scpi_t));
+    memset(v->ctx, 0xA5, sizeof(scpi_t)); /* the application's memory is not zeroed: whatever SCPI_Init does not set is garbage */
     v->inbuf_len = inbuf_len; v->inbuf = (char *) malloc(inbuf_len);
     memset(v->inbuf, 0xEE, inbuf_len);
     v->queue_len = queue_len; v->queue = (scpi_error_t *) malloc(sizeof(scpi_error_t) * (size_t) queue_len);
@@ -90,13 +91,27 @@ vh_ctx_t * vh_ctx_new(const scpi_command_t * cmds, size_t inbuf_len, int queue_l
 #if VH_INFO_HEAP
     v->heap_len = heap_len ? heap_len : 64;
     v->heap = (char *) malloc(v->heap_len);
+    memset(v->heap, 0xEE, v->heap_len);
     SCPI_InitHeap(v->ctx, v->heap, v->heap_len);
 #else
     (void) heap_len;
 #endif
-    v->ctx->user_context = v;
+    v->ctx->user_context = v; v->cmds = cmds;
     v->log_enabled = 1; v->log_writes = 0;
     return v;
+}
+
+void vh_ctx_reinit(vh_ctx_t * v) {
+    const scpi_unit_def_t * units = v->ctx->units;
+    SCPI_ErrorClear(v->ctx);
+    ASAN_UNPOISON_MEMORY_REGION(v->inbuf, v->inbuf_len);
+    memset(v->ctx, 0xA5, sizeof(scpi_t)); memset(v->inbuf, 0xEE, v->inbuf_len); memset(v->queue, 0xEE, sizeof(scpi_error_t) * (size_t) v->queue_len);
+    SCPI_Init(v->ctx, v->cmds, &v->iface, units, "VERIF", "HARNESS", NULL, "01-02", v->inbuf, v->inbuf_len, v->queue, (int16_t) v->queue_len);
+#if VH_INFO_HEAP
+    memset(v->heap, 0xEE, v->heap_len);
+    SCPI_InitHeap(v->ctx, v->heap, v->heap_len);
+#endif
+    v->ctx->user_context = v;
 }
 
 void vh_ctx_clear_capture(vh_ctx_t * v) {
